@@ -304,6 +304,14 @@ func prvwShape(r *core.Rng) []byte {
 		p = p[:r.Range(0, len(p))]
 	}
 	inner := rawBox("PRVW", p)
+	if r.Chance(1, 3) {
+		// the PRVW box claims more than its uuid box holds (together with an overstated JPEG
+		// length neither of the two inner limits ends a read before the outer box is exhausted)
+		copy(inner, be32(len(inner)+r.Pick(1, 8, 16, 100, 2048, 4096, 1<<20, 0x7ffffff0)))
+		if r.Bool() && len(inner) >= 24 {
+			copy(inner[20:], be32(len(jpeg)+r.Pick(1, 16, 2048, 1<<20)))
+		}
+	}
 	return rawBox("uuid", append(append(append([]byte{}, UUIDPreview...), be32(0)...), append(be32(1), inner...)...))
 }
 
